@@ -245,3 +245,32 @@ CONTRACTS[I + "set_range"] = dict(
                             ("new-note-objects", "is_fresh(self.range)")]),
               dict(name="neither", params={"self": "Instrument", "range": "(int,int)"}, ensures=[],
                    raises={"UnexpectedObjectError": "True"})])
+
+# removal of several notes, and the '-' operator form: a single name or Note goes to remove_note; a list is removed name
+# by name; '-' hands back the receiver itself
+_KEEP1 = "n.name != notes"
+_KEEP2 = "(n.name != notes[0] and n.name != notes[1])"
+for _fn, _ret, _res in (("remove_notes", "any", None), ("__sub__", "NoteContainer", "same_object(result, self)")):
+    _extra = [("returns-the-container-itself", _res)] if _res else []
+    CONTRACTS[M + _fn] = dict(
+        params={"self": "NoteContainer", "notes": "str"},
+        requires=[("valid-names", "all([is_name(n.name) for n in self.notes])")],
+        old={"old_notes": "[n for n in self.notes]", "old_list": "self.notes"}, old_by_reference=["old_list", "old_notes"],
+        returns=_ret,
+        ensures=_extra + [("the-list-it-held-before-is-not-edited", "list_same_objects(old_list, old_notes)"),
+                          ("keeps-exactly-the-notes-of-other-names-in-order",
+                           "list_same(self.notes, [n for n in old_notes if %s])" % _KEEP1)],
+        modifies=["param:self"],
+        split=[{"field_types": {"self.notes": sz}} for sz in SIZES4], split_is_domain=True,
+        variants=[dict(
+            name="two-names", params={"self": "NoteContainer", "notes": "[str,str]"},
+            ensures=_extra + [("the-list-it-held-before-is-not-edited", "list_same_objects(old_list, old_notes)"),
+                              ("keeps-exactly-the-notes-of-other-names-in-order",
+                               "list_same(self.notes, [n for n in old_notes if %s])" % _KEEP2)]),
+            dict(name="by-note", params={"self": "NoteContainer", "notes": "Note"},
+                 requires=[("valid-names", "all([is_name(n.name) for n in self.notes]) and is_name(notes.name)")],
+                 ensures=_extra + [("the-list-it-held-before-is-not-edited", "list_same_objects(old_list, old_notes)"),
+                                   ("keeps-exactly-the-notes-of-other-pitch-in-order",
+                                    "list_same(self.notes, [n for n in old_notes if pitch(n) != pitch(notes)])")])],
+        notes="domain: containers of 0..3 notes with arbitrary names, octaves and order; a name, a list of two names, or a Note",
+        properties=["C12"], battery="nc_remove_many")
